@@ -612,7 +612,7 @@ func init() {
 		Runs:        map[string]int{"quick": 100000, "thorough": 2500000},
 		Rule:        "seeded base files (1-4 datasets, attributes, groups; all superblock versions) followed by 1-5 OpenForWrite sessions of 0-10 supported operations (attribute upserts/deletes via OpenDataset, data overwrite, object creation); after each session the logical dump must equal the model with exactly that session's successful operations applied; a session without calls must leave the file byte-identical (SHA-256); non-trivial = >= 2 sessions and >= 1 successful modification; distinct by (superblock version, per-session op-kind sequence)",
 		Technique:   "deterministic simulation: multi-session open-modify-close histories vs model; restart = only file bytes survive",
-		Assumptions: []string{"files written by the reference library are not used as base files in this check (library-created files only)"},
+		Assumptions: []string{"every eighth run uses a bundled reference-library file as base (sim/e2/c10ref.go): sessions add a scalar attribute to some dataset or do nothing; most reference files have version-1 object headers, whose modification the library refuses, so those runs mainly check that a refused or empty session changes nothing"},
 		RealVsStub:  realVsStub,
 	})
 	harness.Register(&harness.Prop{
